@@ -9,7 +9,7 @@ from .lockstep import BAD_VALUES, UPD
 VIAS_M = ["db", "db", "handle", "old_handle"]
 SELECT_KEYS = [
     "time", "measurement", "tags.a", "fields.a", "tags.b", "fields.f", ["time"], ["tags.a", "fields.a"], ["measurement", "time", "tags.t x"],
-    ["fields.a", "fields._t", "tags.a"], ["tags.zz"], ["fields.zz", "time"],
+    ["fields.a", "fields._t", "tags.a"], ["tags.zz"], ["fields.zz", "time"], "tags.a.b", ["tags.a", "tags.a.b"],
 ]
 
 
@@ -27,7 +27,7 @@ def op_insert_stamped():
 
 def op_insert_multiple(bad=False):
     return st.tuples(
-        st.just("insert_multiple"), st.lists(gen.points(), min_size=0 if not bad else 1, max_size=6), st.integers(0, 3), st.sampled_from(["inorder", "inorder", "asis"]),
+        st.just("insert_multiple"), st.lists(gen.points(), min_size=0 if not bad else 1, max_size=6), st.integers(0, 3), st.sampled_from(["inorder", "inorder", "asis", "inorder", "inorder", "asis", "asis_recycled", "asis_reading"]),
         st.sampled_from(["db", "db", "db_meas", "handle"]), st.sampled_from([0, 1, 2, 3, 4, 0, 1, 2, 3, 4, 100, 101, 102, 103]) if bad else st.none(), st.sampled_from(gen.MEAS),
     ).map(list)
 
@@ -60,6 +60,13 @@ def op_update_hit(fault=False):
         same = st.sampled_from(["America/New_York", "Europe/London", "Australia/Lord_Howe"]).map(lambda z: {"time": ["hit_time_in_zone", z]})
         args = st.one_of(args, args, args, args, args, args, args, same)
     return st.tuples(st.just("update_hit"), hit_spec(), gen.queries(2), hit_m(), args, st.sampled_from(["db", "db", "handle", "old_handle"])).map(list)
+
+
+def op_update_same_tags():
+    """Static tags that every selected point carries already, next to an unset of a field: the tags change nothing, the unset does."""
+    return st.tuples(st.sampled_from(["x", "xy", None]), st.sampled_from(gen.FKEYS), st.booleans(), st.sampled_from(["db", "handle", "old_handle"])).map(
+        lambda t: ["update", ["leaf", "tag", [["key", "a"]], ["cmp", "==", t[0]]], None, {"tags": {"a": t[0]}, ("unset_fields" if t[2] else "unset_tags"): (t[1] if t[2] else "b")}, "db"]
+    )
 
 
 def op_drop():
@@ -260,7 +267,7 @@ def history(profile, max_ops=30, min_ops=1):
     table["probe"] = st.one_of(op_probe(), op_probe_hit(), op_probe_hit(), op_probe_twin())
     table["insert"] = st.one_of(op_insert(), op_insert(), op_insert(), op_insert(), op_insert(), op_insert(), op_insert_stamped(), op_insert_reuse())
     table["remove"] = st.one_of(op_remove(), op_remove_hit(), op_remove_hit())
-    table["update"] = st.one_of(op_update(), op_update_hit(), op_update_hit())
+    table["update"] = st.one_of(op_update(), op_update_hit(), op_update_hit(), op_update(), op_update_hit(), op_update_hit(), op_update_same_tags())
     table["fault_update"] = st.one_of(op_update(True), op_update_hit(True), op_update_hit(True), op_update_primed_invalid())
     table["clean_fault_update"] = st.one_of(op_update("clean"), op_update_hit("clean"), op_update_hit("clean"))
     names = [n for n, k in w.items() for _ in range(k)]
@@ -274,18 +281,47 @@ def history(profile, max_ops=30, min_ops=1):
     seeded = st.tuples(st.lists(gen.points(), min_size=3, max_size=10), st.sampled_from(["inorder", "asis"]), body).map(
         lambda t: [["insert_multiple", t[0], 0, t[1], "db", None, "m1"]] + t[2]
     )
-    return st.one_of(body, seeded, seeded, seeded, seeded)
+    plain = st.one_of(body, seeded, seeded, seeded, seeded)
+    # one history in ten stores nothing younger than the epoch (1970-01-01T00:00:00Z, timestamp 0.0, is then the latest instant)
+    return st.one_of(*([plain] * 9 + [plain.map(retime_old)]))
+
+
+def retime_old(ops):
+    from datetime import timedelta
+
+    old = [gen.EPOCH, gen.EPOCH, gen.EPOCH - timedelta(microseconds=1), gen.T0 - timedelta(days=20000)]
+
+    def fix(p):
+        i = gen.TIMES.index(p["time"]) if p["time"] in gen.TIMES else 0
+        return dict(p, time=old[i % len(old)])
+
+    out = []
+    for op in ops:
+        op = list(op)
+        if op[0] in ("insert", "insert_reuse", "insert_stamped") and isinstance(op[1], dict) and op[0] != "insert_stamped":
+            op[1] = fix(op[1])
+        elif op[0] == "insert_stamped":
+            continue  # "now" would be the youngest point
+        elif op[0] == "insert_multiple":
+            op[1] = [fix(p) for p in op[1]]
+        out.append(op)
+    return out
 
 
 @st.composite
 def bulk_history(draw, max_points=25):
     """A larger data set loaded at once (in-order, shuffled, duplicates), optionally thinned by a removal, then many probes."""
-    pts = draw(st.lists(gen.points(), min_size=0 if max_points <= 25 else max_points // 3, max_size=max_points))
+    pts = draw(st.lists(gen.points(), min_size=0 if max_points <= 25 else (max_points // 3 if max_points < 300 else 262), max_size=max_points))
     ops = [["insert_multiple", pts, draw(st.integers(0, 3)), draw(st.sampled_from(["inorder", "asis"])), "db", None, "m1"]]
     if draw(st.booleans()):
         ops.append(draw(st.one_of(op_remove(), op_remove_hit())))
     if max_points > 25 and draw(st.booleans()):
         ops.append(draw(st.one_of(op_update_hit(), op_remove_hit())))
+    if max_points >= 300:
+        # positions beyond 256 exist: a probe (so that the index is built), then writes that go through the index
+        ops.append(draw(op_probe_hit()))
+        ops.append(draw(op_update_hit()))
+        ops.append(draw(st.one_of(op_update_same_tags(), op_update_hit(), op_remove_hit())))
     if draw(st.integers(0, 3)) == 0:
         ops.append(draw(op_insert()))
     n = draw(st.integers(6, 14))
